@@ -59,6 +59,9 @@ func vfC08Variants() []vfVariant {
 	return out
 }
 
+// vfC08TruncPerPoint: truncation cases per (variant, target, point); cut positions are spread evenly over them.
+func vfC08TruncPerPoint() int { return vfPick(96, 400) }
+
 func vfC08Cases() []vfC08Case {
 	vs := vfC08Variants()
 	var cases []vfC08Case
@@ -76,6 +79,17 @@ func vfC08Cases() []vfC08Case {
 					for i := 0; i < reps; i++ {
 						add(vfC08Case{Scenario: "hs", Variant: vi, Target: tgt, K: k, Gen: g, Idx: i})
 					}
+				}
+			}
+		}
+	}
+	// retransmission-like duplicates at every point, and truncations of every message about to arrive
+	for vi := range vs {
+		for _, tgt := range []string{"c", "s"} {
+			for k := 0; k <= maxK+4; k++ {
+				add(vfC08Case{Scenario: "hs", Variant: vi, Target: tgt, K: k, Gen: "hsdup", Idx: 0})
+				for i := 0; i < vfC08TruncPerPoint(); i++ {
+					add(vfC08Case{Scenario: "hs", Variant: vi, Target: tgt, K: k, Gen: "hstrunc", Idx: i})
 				}
 			}
 		}
@@ -189,19 +203,31 @@ func vfC08Handshake(res *vfResult, c vfC08Case, v vfVariant) {
 				if len(b) == 0 {
 					b = vfGenRaw(r, nb)
 				}
+			case "hsdup":
+				b = vfGenFreshDuplicates(g, cidLen)
+			case "hstrunc":
+				// one truncation of the message(s) the target is about to receive, ahead of the genuine datagram
+				if toTarget {
+					all := vfGenTruncatedMessages(w.Data, cidLen, 7)
+					nIdx := vfC08TruncPerPoint()
+					if k := c.Idx * len(all) / nIdx; len(all) > 0 && (c.Idx == 0 || k != (c.Idx-1)*len(all)/nIdx) {
+						b = []vfHostile{all[k]}
+					}
+				}
 			}
 			vfClassify(b, is13, cidLen)
 			mu.Lock()
 			batch = b
 			mu.Unlock()
 			// the genuine datagram that triggered the injection goes first when it is for the target
-			if toTarget {
+			// (except for truncations of that very datagram's messages, which must get there before it)
+			if toTarget && c.Gen != "hstrunc" {
 				n.Deliver(w.Dst, w.Data, from)
 			}
 			for _, h := range b {
 				n.Deliver(string(target.EP.addr), h.Data, vfAddrOf(peer.Name))
 			}
-			if !toTarget {
+			if !toTarget || c.Gen == "hstrunc" {
 				n.Deliver(w.Dst, w.Data, from)
 			}
 
